@@ -69,6 +69,9 @@ type Script struct {
 	// the output is the Datadog client and the upstream an HTTP intake; Gen.Upstream is then the outcome per request:
 	// healthy (200) | lateAck (200 after 120 ms) | noAck (never answers) | closeNow (connection reset) | resetAfter1 (500) | resetAfter2 (300)
 	Datadog bool `json:"datadog"`
+	// the singleton orchestrator (one pipeline, fixed tag dev.app1) instead of byKeySet: records of several apps share the
+	// pipeline and the observer sees one stream per connection (key 1 for every record)
+	Singleton bool `json:"singleton"`
 	// upstream.maxDuration of the Fluentd output in ms (0 = 300): the scheduled reconnect
 	MaxDurationMs int `json:"maxDurationMs"`
 	// httpTimeout of the Datadog output in ms (0 = 400)
@@ -124,6 +127,7 @@ outputBufferPairs:
 
 var ddHTTPTimeout = "400ms"
 var ffMaxDuration = "300ms"
+var singleton = false
 
 func confText(kind, queueRoot, upAddr string, twoKeys bool) string {
 	keys, extra := "app", ""
@@ -142,6 +146,9 @@ func confText(kind, queueRoot, upAddr string, twoKeys bool) string {
 	}
 	text := fmt.Sprintf(confTemplate, keys, extra, queueRoot, upAddr)
 	text = strings.Replace(text, "maxDuration: 300ms", "maxDuration: "+ffMaxDuration, 1)
+	if singleton {
+		text = strings.Replace(text, "  type: byKeySet\n  keys: ["+keys+"]\n  tag: dev.$app\n", "  type: singleton\n  tag: dev.app1\n", 1)
+	}
 	if strings.HasPrefix(upAddr, "http://") {
 		i := strings.Index(text, "    output:\n")
 		text = text[:i] + "    output:\n        type: datadog\n        serialization:\n            hiddenFields: []\n        upstream:\n            address: " + upAddr + "\n            httpTimeout: " + ddHTTPTimeout + "\n"
@@ -189,6 +196,9 @@ func stampsOf(msg *forwardprotocol.Message) ([][]int, bool) {
 			ok = false
 		}
 		k, _ := strconv.Atoi(strings.TrimPrefix(app, "app"))
+		if singleton {
+			k = 1
+		}
 		out = append(out, []int{st.g, st.c, st.i, k})
 	}
 	return out, ok
@@ -287,11 +297,18 @@ func ddStamps(data []byte) (st [][]int, tag string, ok bool) {
 	for _, r := range arr {
 		s, good := parseStamp(r["log"])
 		app := r["app"]
-		if !good || r["host"] != fmt.Sprintf("host%d", s.c) || !strings.HasPrefix(app, "app") || r["ddtags"] != "dev."+app || (tag != "" && tag != r["ddtags"]) {
+		wantTag := "dev." + app
+		if singleton {
+			wantTag = "dev.app1"
+		}
+		if !good || r["host"] != fmt.Sprintf("host%d", s.c) || !strings.HasPrefix(app, "app") || r["ddtags"] != wantTag || (tag != "" && tag != r["ddtags"]) {
 			ok = false
 		}
 		tag = r["ddtags"]
 		k, _ := strconv.Atoi(strings.TrimPrefix(app, "app"))
+		if singleton {
+			k = 1
+		}
 		st = append(st, []int{s.g, s.c, s.i, k})
 	}
 	return st, tag, ok
@@ -423,6 +440,7 @@ func RunScript(sc Script, work string) *vtrace.Tracer {
 		defer fluentdforward.SetChunkLimitsForVerif(oldRecs, oldBytes)
 	}
 	up := &upstream{pre: "Up", tr: tr, addr: "127.0.0.1:0", ackedStamps: map[stamp]bool{}}
+	singleton = sc.Singleton
 	ffMaxDuration = "300ms"
 	if sc.MaxDurationMs > 0 {
 		ffMaxDuration = fmt.Sprintf("%dms", sc.MaxDurationMs)
@@ -471,7 +489,11 @@ func RunScript(sc Script, work string) *vtrace.Tracer {
 	if keys < 1 {
 		keys = 1
 	}
-	tr.Emit("History", "keys", keys, "script", sc.ID)
+	if sc.Singleton {
+		tr.Emit("History", "keys", 1, "script", sc.ID) // one stream per connection, whatever the apps
+	} else {
+		tr.Emit("History", "keys", keys, "script", sc.ID)
+	}
 	for gi, g := range sc.Gens {
 		genNo := gi + 1
 		up.mu.Lock()
